@@ -491,6 +491,16 @@ impl ContinuityStore {
         const MAX_TAIL_BYTES: usize = 8 * 1024 * 1024;
         const MAX_TAIL_EVENTS: usize = 100_000;
 
+        // The head seq comes from the full sidecar: the messages+runs sidecar omits non-message
+        // frames and cannot stand in for it. When the full sidecar is missing or unreadable,
+        // rebuild it from truth first (replay does that) instead of cutting at the last message.
+        if !matches!(
+            self.stream_cache.try_read_last_seq(continuity_id),
+            Ok(Some(_))
+        ) {
+            let _ = self.replay_events(continuity_id);
+        }
+
         let mut tail_bytes = INITIAL_TAIL_BYTES;
         #[cfg(rip_verif)]
         rip_kernel::verif::point("scan.enter", "compile_input.tail");
